@@ -57,7 +57,7 @@ class Rec:
     ``classes`` are the short class names ``isinstance`` accepts in addition.
     Any rule-side class may take part through the same duck-typed protocol
     (``sx_getattr(sx, attr, node)``, ``sx_isinstance(sx, cname)``,
-    ``sx_setattr(attr, value)``, ``sx_term()``)."""
+    ``sx_setattr(attr, value)``, ``sx_term()``, ``sx_str(sx)``)."""
 
     def __init__(self, cls=None, label=None, classes=(), /, **attrs):
         self.cls = cls
@@ -76,6 +76,14 @@ class Rec:
 
     def sx_setattr(self, attr, value):
         self.attrs[attr] = value
+
+    def sx_str(self, sx):
+        """str(record) / f"{record}": the class's own __str__, evaluated (None if it has none)."""
+        m = sx.find_method(self.cls, "__str__") if self.cls else None
+        if m is None:
+            return None
+        r = sx._invoke(Func(m[0], [], m[0]._module, m[0]._qual, bound=self), [], {}, None)
+        return r if isinstance(r, str) else None
 
     def sx_isinstance(self, sx, cname):
         if cname in self.classes:
@@ -717,6 +725,13 @@ class Symex:
                 return t_div(a, b)
             if isinstance(a, float) or isinstance(b, float):
                 return a / b
+            if hasattr(a, "sx_getattr") or hasattr(b, "sx_getattr"):      # rule-side number domain
+                try:
+                    return a / b
+                except ZeroDivisionError:
+                    raise Raised("ZeroDivisionError", None, node)
+                except TypeError:
+                    pass
             self.unsupported(node, "true division")
         if isinstance(op, ast.Pow) and is_num(a) and isinstance(b, int):
             return t_pow(a, b)
@@ -882,8 +897,11 @@ class Symex:
                     x = self.ev(v.value)
                     if isinstance(x, Obj):
                         x = x.term
-                    if _plain(x) and v.format_spec is None and v.conversion == -1:
-                        parts.append(str(x))
+                    if _plain(x) and v.format_spec is None and v.conversion in (-1, 115, 114):
+                        parts.append(repr(x) if v.conversion == 114 else str(x))
+                    elif hasattr(x, "sx_str") and v.format_spec is None and v.conversion in (-1, 115) \
+                            and isinstance(x.sx_str(self), str):
+                        parts.append(x.sx_str(self))
                     else:
                         symbolic = True
                         parts.append(_freeze(x) if not isinstance(x, T) else x)
@@ -1318,6 +1336,10 @@ class Symex:
             return self.isinstance(args[0], args[1], node)
         if name == "print":
             return None
+        if name == "str" and len(args) == 1 and not kw and hasattr(args[0], "sx_str"):
+            r = args[0].sx_str(self)
+            if isinstance(r, str):
+                return r
         if name == "getattr":
             if isinstance(args[1], str):
                 try:
